@@ -258,13 +258,28 @@ func mutateChild(e *Env, job []byte, m *emitter) error {
 		default:
 			// the evaluation is still running and cannot be stopped: report, then give up this process
 			m.result(map[string]any{"u": u.U, "p": pi, "class": class, "nontrivial": nontrivial, "ms": dur.Milliseconds(), "peak_bytes": peak,
-				"detail": fmt.Sprintf("%s after %s; live heap+stacks above baseline: %d MiB", class, dur.Round(time.Millisecond), peak>>20)})
+				"detail": fmt.Sprintf("%s after %s; live heap+stacks above baseline: %d MiB\n%s", class, dur.Round(time.Millisecond), peak>>20, extractGoroutine())})
 			m.result(map[string]any{"u": u.U, "summary": true, "partial": true, "n": n, "changed": changed, "errs": errs, "with_pkgs": withPkgs, "max_ms": maxDur.Milliseconds(), "slow": slow})
 			os.Exit(3)
 		}
 	}
 	m.result(map[string]any{"u": u.U, "summary": true, "n": n, "changed": changed, "errs": errs, "with_pkgs": withPkgs, "max_ms": maxDur.Milliseconds(), "slow": slow})
 	return nil
+}
+
+// extractGoroutine returns the stack of the goroutine that is inside Extract (for Timeout/OOM reports).
+func extractGoroutine() string {
+	buf := make([]byte, 4<<20)
+	buf = buf[:runtime.Stack(buf, true)]
+	for _, g := range strings.Split(string(buf), "\n\n") {
+		if strings.Contains(g, "main.callExtract") {
+			if len(g) > 5000 {
+				g = g[:2500] + "\n...\n" + g[len(g)-2500:]
+			}
+			return g
+		}
+	}
+	return ""
 }
 
 // loadRegistryLight: name -> info (no fixtures walk needed by the child beyond what loadRegistry does)
